@@ -25,7 +25,7 @@ coverage use the pinned byte ranges; metadata copies alternate by generation par
 newer valid copy; the version table is 1 -> V1, 2|3|_ -> V2 and the write buffer is built with the store's decoded
 version. Not decided: that an independent decoder finds exactly the live keys after an arbitrary workload; golden files.
 """
-DECIDED = ["pinned constants", "record field offsets: writer = reader = spec", "token fold and CRC feed: writer = recovery",
+DECIDED = ['boundary comparisons of what counts as a recoverable record (key / value limits, header fit) pinned with their strictness', "pinned constants", "record field offsets: writer = reader = spec", "token fold and CRC feed: writer = recovery",
            "retirement marker positions", "metadata / journal byte ranges and checksum coverage", "version table and version plumbing"]
 NOT_DECIDED = ["independent-reader equivalence after arbitrary workloads", "golden-file corpus"]
 ASSUMPTIONS = ["spec/layout.json is the released format (transcribed from this commit's constants and docs)"]
